@@ -39,6 +39,11 @@ CLAIMED = {
 		text='Partial: proved are the exception contract of Nodes.ancestor (an absent tag is NodeNotFound) and, for every memoised query (parent, ancestor, children, expand, values), the derived obligation that the memo key determines all inputs the cached factory closes over (so an answer cannot depend on what was asked before). The bijection pluck ∘ full_pathfy, document-order ids, agreement of parent/children/siblings/ancestor/expand with the tree and query-order independence of the resolved class are a bounded twin over random trees (never counted as proved): the code recurses over third-party tree objects and iterates dicts.',
 		note='Memoize.get transparency read from memo2.py; regex de-indexing and path element access assumed; most of the statement is bounded',
 		ref='DESIGN.md §4 C10'),
+	'C11': dict(
+		level='proof',
+		text='Proved function by function over abstract pattern / token / tree identities: the step accounting of the matching engine (_match_terminal, _match_and, _match_or, _match_repeat, _match_entry, _match_symbol: a match never reaches before the first token, a failed match consumes nothing, a terminal consumes exactly the token at the cursor), SyntaxParser.parse returns a tree only when the match of the entry point consumed every token and raises Errors.Syntax otherwise, keywords never match a regexp terminal (_compare_token), the unwrap rules [1] / [*] (_unwrap_children against a recursive spec), and the error summary names a token of the input and quotes a line that exists (ErrorCollector, no IndexError). Agreement of the trees with CPython\'s ast is a labelled bounded twin over generated sentences and mutants.',
+		note='pattern entries, tokens and tree entries as opaque identities with observers; tokenizer spans assumed (SourceMap.make proved in C16/C13); termination of the mutually recursive matcher not decided; tree agreement bounded',
+		ref='DESIGN.md §4 C11, §9'),
 	'C12': dict(
 		level='proof',
 		text='Closed obligations decided by evaluation on every run: parsing data/syntax/gram.lark with the built-in rules yields the built-in rules, and compiling gram.lark / py_gram.lark yields the checked-in rule modules. Proved for all inputs: Pattern.make reads exactly the three textual forms (quoted string with the four control-code escapes, slashed regexp, symbol) and refuses anything else; Prettier._pretty_pattern / _deco_repeat write those forms; reading a printed pattern gives the pattern back (lemma over the two contracts); rule names carry the unwrap marker exactly when the rule text does (ASTSerializer._for_rule_name) and Rules.unwrap_by / __getitem__ find a pattern under that name. The recursive rebuild, the group printer and the parsing engine are a labelled bounded twin (print -> parse -> rebuild on shipped and generated grammars; compiled vs original rules on generated sentences).',
